@@ -7,7 +7,9 @@ RULE = ("case = (target region incl. below 128 MiB where the window is clipped, 
         "mprotect fails). Outcome must be: installed AND exactly one mapping kept AND |mapping - target| <= 128 MiB AND the entry decodes "
         "(independent x86 interpreter) through that mapping to the fake AND the call returns the fake's id; or panic AND target bytes and "
         "behaviour unchanged AND (for placement failures) no executable mapping left AND the set of executable mappings unchanged. Every "
-        "munmap must hit exactly one live library mapping with its length (online ledger). distinct = (region, alignment, layout class, fault class)")
+        "munmap must hit exactly one live library mapping with its length (online ledger). arm64 (simulation): for every displacement within "
+        "+/-4096 words of -128 MiB and +128 MiB, the page-granular placements around them, and 20 000 far ones, the unmodified emitter writes "
+        "a branch that reaches the trampoline or panics with the entry untouched. distinct = (region, alignment, layout class, fault class)")
 
 
 def run(tier, seed):
@@ -20,6 +22,10 @@ def run(tier, seed):
     obs = core.sum_dicts(sums)
     r.observe("native", obs)
     r.void_if_unobserved(obs.get("counters", {}).get("mmap_exec", 0) > 0, "no executable mmap of the library was observed")
+    # arm64 reach check (the entry B reaches +/-128 MiB minus one word; the allocator accepts +/-128 MiB
+    # inclusive): the unmodified patch_arm64.rs in simulation must refuse what it cannot encode
+    from props import _sim
+    _sim.run_sim(r, "c11sim", seed, tier, ["linux", "macos"] if tier == "thorough" else ["linux"], ["dev"], nshards=3, crosscheck=False)
     r.assumptions = [
         "Linux x86-64: reach is +/-128 MiB as the allocator promises; the kernel honours a hint iff the hinted page is free and at or above the probed hint floor",
         "a clean refusal although a free page exists is allowed by the property (counted as feasible_but_refused, not judged)",
@@ -31,6 +37,13 @@ def run(tier, seed):
 def replay(path):
     import subprocess
     rp = core.load_replay(path)
+    if str(rp.get("engine", "")).startswith("sim"):
+        import simgen
+        eng = rp["engine"].split("/")
+        exe, _ = simgen.build(eng[1], eng[2])
+        p = subprocess.run([exe, "c11sim", "--seed", str(rp["seed"]), "--tier", rp["tier"], "--only", str(rp["case_index"])], stdout=subprocess.PIPE, text=True)
+        print(p.stdout[-2500:])
+        return 1 if ('"verdict":"violated"' in p.stdout or p.returncode != 0) else 0
     exe = core.build_native()
     p = subprocess.run([exe, "c11", "--seed", str(rp["seed"]), "--tier", rp["tier"], "--only", str(rp["case_index"])], stdout=subprocess.PIPE, text=True)
     print(p.stdout[-3000:])
